@@ -137,3 +137,90 @@ func vxC02Body(maxN int) {
 		vx.Assert(cdf == 1, "CDF is 1 from N1*N2 upward")
 	}
 }
+
+// VxC02_UDistSmallSide: the same exactness for pools of 21..26 observations when one sample has
+// one or two observations, tied over three or four ranks (the sizes at which mathx.Choose leaves
+// its exact range and the tied recurrence falls back to closed-form counts). The reference
+// enumerates the size-1 or size-2 subsets directly (through the complement when the small sample is the second).
+// C02: "UDist.PMF(u) at each attainable point u equals the number of size-N1 subsets ... divided by C(N1+N2,N1), and UDist.CDF(u)
+// equals the total mass at points <= u for every real u".
+//
+//vx:mode R
+//vx:solver z3
+//vx:maxsteps 400000000
+//vx:maxdec 200000
+//vx:budget 1500
+//vx:bound N1+N2 in {22,25} (quick) / 21..26 (thorough), the smaller sample of 1 or 2 (either side), tie vectors {a,b,rest} and {a,b,1,rest-1} with a,b in {1,2,N/2-1}; u any real
+//vx:outside both samples above 2 at these pool sizes (the subset reference is exponential)
+func VxC02_UDistSmallSide() {
+	var n int
+	if vx.Tier() == 0 {
+		n = []int{22, 25}[vx.Choose("Nsel", 0, 1)]
+	} else {
+		n = vx.Choose("N", 21, 26)
+	}
+	small := vx.Choose("small", 1, 2)
+	mirror := vx.Choose("mirror", 0, 1) == 1
+	sel := []int{1, 2, n/2 - 1}
+	a, b := sel[vx.Choose("ta", 0, 2)], sel[vx.Choose("tb", 0, 2)]
+	rest := n - a - b
+	t := []int{a, b, rest}
+	if vx.Choose("k4", 0, 1) == 1 {
+		t = []int{a, b, 1, rest - 1}
+	}
+	n1, n2 := small, n-small
+	if mirror {
+		n1, n2 = n2, n1
+	}
+	d := UDist{N1: n1, N2: n2, T: t}
+	u := vx.Float("u")
+	vx.Assume(vx.And(u >= 0, u <= float64(n1*n2)))
+	twoU := vx.Concretize(int(2 * u))
+	onGrid := 2*u == float64(twoU)
+	vx.Concretize(int(math.Floor(u)))
+	var cdf, pmf float64
+	if vx.Panics(func() { cdf = d.CDF(u); pmf = d.PMF(u) }) {
+		vx.Assert(false, "UDist.CDF/PMF do not panic")
+		return
+	}
+	// doubled midranks
+	twoRank := make([]int, 0, n)
+	first, all := 1, 0
+	for _, c := range t {
+		last := first + c - 1
+		for j := 0; j < c; j++ {
+			twoRank = append(twoRank, first+last)
+			all += first + last
+		}
+		first = last + 1
+	}
+	counts := make([]int, 2*n1*n2+1)
+	total := 0
+	add := func(sumSmall int) {
+		sum := sumSmall
+		if mirror {
+			sum = all - sumSmall
+		}
+		counts[sum-n1*(n1+1)]++
+		total++
+	}
+	for i := 0; i < n; i++ {
+		if small == 1 {
+			add(twoRank[i])
+			continue
+		}
+		for j := i + 1; j < n; j++ {
+			add(twoRank[i] + twoRank[j])
+		}
+	}
+	cum := 0
+	for k := 0; k <= twoU && k < len(counts); k++ {
+		cum += counts[k]
+	}
+	ftotal := float64(total)
+	vx.Assert(vx.Close(cdf, float64(cum)/ftotal, 1e-12, 1e-12), "CDF(u) is the mass at points <= u (large pool, small sample)")
+	if onGrid && twoU < len(counts) && counts[twoU] > 0 {
+		vx.Cover("attainable")
+		vx.Assert(vx.Close(pmf, float64(counts[twoU])/ftotal, 1e-12, 1e-12), "PMF(u) is the mass at the attainable point u (large pool, small sample)")
+	}
+}
